@@ -3,12 +3,13 @@
      backend : 0 = SchedPool (threads under a schedule, objects shared)      -> InProcess
                1 = SchedPool + pickling (de)serializer (every task a copy)   -> Copying
                2 = DummyPool (Context._runJob_local)
-               3 = ThreadPoolExecutor -> InProcess; 4..7 = process pools with cloudpickle / dill -> Copying
+               3 = ThreadPoolExecutor, 8 = lazy builtin map -> InProcess; 4..7 = process pools with cloudpickle / dill -> Copying
                    (real pools: the schedule is not observable, events are not compared; by the theorems of
                     Properties/C03.v the values and the cache do not depend on it)
      timed   : 1 = the context uses a TimedCacheManager (the result then lists the stamped idents)
      parts   : the source partitions, lists of ints
-     stages  : from the source upwards: VTup [0; fcode] map-like | VTup [1] persist | VTup [2; seed; fraction] sample;
+     stages  : from the source upwards: VTup [0; fcode] map-like | VTup [1] persist |
+               VTup [2; seed; 0; fraction] sample(False, ..) | VTup [2; seed; 1; lam; exp(-lam)] sample(True, ..);
                the dataset id of a persist stage is its 1-based position in the list
      draws   : VTup [seed; VList floats]: the first random() values of random.Random(seed)
      jobs    : VTup [depth; action; arg; sched]: run [action] on the dataset made of the first [depth] stages
@@ -32,13 +33,14 @@ Definition fn_of_code (c : Z) : option (Z -> list Z) :=
   | _ => None
   end.
 
-Inductive stage := SMap (f : Z -> list Z) | SPersist | SSample (seed : Z) (fr : float).
+Inductive stage := SMap (f : Z -> list Z) | SPersist | SSample (seed : Z) (smp : sampler).
 
 Definition dec_stage (v : val) : option stage :=
   match v with
   | VTup [VInt 0; VInt c] => option_map SMap (fn_of_code c)
   | VTup [VInt 1] => Some SPersist
-  | VTup [VInt 2; VInt s; VFloat fr] => Some (SSample s fr)
+  | VTup [VInt 2; VInt s; VInt 0; VFloat fr] => Some (SSample s (SBern fr))
+  | VTup [VInt 2; VInt s; VInt 1; VFloat lam; VFloat e] => Some (SSample s (SPoisson lam e))
   | _ => None
   end.
 
@@ -85,9 +87,11 @@ Fixpoint table_ok (tbl : list (Z * list float)) (stages : list stage) (n : nat) 
   | S n' =>
       table_ok tbl stages n' parts &&
       match nth_error stages n' with
-      | Some (SSample s _) =>
-          forallb (fun ip => Nat.leb (length (eval (draw_of tbl) (build stages n' 1 Src) (Z.of_nat (fst ip)) (snd ip)))
-                                     (draws_len tbl (s + Z.of_nat (fst ip))))
+      | Some (SSample s smp) =>
+          forallb (fun ip =>
+                     let '(_, pos, ok) := samp_run (draw_of tbl) (s + Z.of_nat (fst ip)) smp 0
+                                            (eval (draw_of tbl) (build stages n' 1 Src) (Z.of_nat (fst ip)) (snd ip)) in
+                     ok && Nat.leb pos (draws_len tbl (s + Z.of_nat (fst ip))))
                   (combine (seq 0 (length parts)) parts)
       | _ => true
       end
@@ -151,7 +155,7 @@ Fixpoint run_jobs (js : list job) (driver : cache) (stamped : list key) (acc : l
         | None => None
         end
       else
-        let o := run_job (draw_of tbl) (if (backend_code =? 0) || (backend_code =? 3) then InProcess else Copying)
+        let o := run_job (draw_of tbl) (if (backend_code =? 0) || (backend_code =? 3) || (backend_code =? 8) then InProcess else Copying)
                          today r tf parts (j_sched j) driver shared0 in
         match all_some (o_results o) with
         | Some rs' =>
@@ -170,7 +174,7 @@ Definition run (c : val) : val :=
       | Some parts, Some stages, Some tbl =>
           match dec_all (dec_job (length parts)) vjobs with
           | Some jobs =>
-              if negb ((0 <=? b) && (b <=? 7)) then VBad
+              if negb ((0 <=? b) && (b <=? 8)) then VBad
               else if negb (forallb (fun j => Nat.leb (j_depth j) (length stages)) jobs) then VBad
               else if negb (table_ok tbl stages (length stages) parts) then VFuel
               else
